@@ -722,6 +722,9 @@ func extraCommand(cmd string, args []string) bool {
 	case "uritable":
 		runURITable(args)
 		return true
+	case "rpcstress":
+		runRPCStress(args)
+		return true
 	case "crashchild":
 		runCrashChild(args)
 		return true
